@@ -24,8 +24,10 @@ Oracle (three-valued; see judge() and judge_field())
       all-or-nothing where the grammar decides it, UNSPECIFIED otherwise
   (c) every log() call: exactly the INPUT's file; 1-based line inside the block's source range
       (blocks whose /** stands alone); family (i): the line holding the injected field; quoted
-      line == source line at that number and 0 <= caret <= len(line) (unless that source line is
-      a deprecated tag-style annotation); the displayed text names that file:line
+      line == source line at that number and 0 <= caret <= len(quoted text) (unless that source
+      line is a deprecated tag-style annotation; on the line that also holds the end token only
+      "quoted text is part of that source line" is required - the rest is UNSPECIFIED); the
+      displayed text names that file:line
   (d) get_warning_count() == number of log() calls, identical with display suppressed; and a
       stubbed `scanner_main --warn-error` over the same comments exits non-zero iff at least
       one diagnostic was logged (subset stated in bounds)
@@ -100,7 +102,7 @@ def observe(text, suppressed=True):
     return o
 
 
-def judge(text, o, field_line=None):
+def judge(text, o, field_line=None, notes=None):
     """Generic clauses (a), (c), (d).  -> [(kind, description)]"""
     P = []
     lines = B.split_lines(text)
@@ -141,10 +143,19 @@ def judge(text, o, field_line=None):
                 line, MUT_LINE + field_line, what)))
         src = lines[line - MUT_LINE]
         if r['marker_line'] is not None and r['marker_pos'] is not None and not deprecated_tag_line(src):
-            if r['marker_line'] != src:
-                P.append(('quoted-line', 'quoted %r but line %d is %r: %s' % (r['marker_line'], line, src, what)))
-            elif not (isinstance(r['marker_pos'], int) and 0 <= r['marker_pos'] <= len(src)):
-                P.append(('caret', 'caret at %r outside the quoted line of length %d: %s' % (r['marker_pos'], len(src), what)))
+            quoted = r['marker_line']
+            if quoted != src:
+                # text sharing the line with the end token: the parser quotes the line without the token and
+                # the blanks around it.  The statement does not clearly exclude that (lead's ruling): UNSPECIFIED,
+                # as long as what is quoted is part of that source line.
+                if line - MUT_LINE == len(lines) - 1 and quoted in src:
+                    if notes is not None:
+                        notes.append('end-token-line')
+                else:
+                    P.append(('quoted-line', 'quoted %r but line %d is %r: %s' % (quoted, line, src, what)))
+                    continue
+            if not (isinstance(r['marker_pos'], int) and 0 <= r['marker_pos'] <= len(quoted)):
+                P.append(('caret', 'caret at %r outside the quoted text of length %d: %s' % (r['marker_pos'], len(quoted), what)))
     # (d) counting
     if o.count != len(o.recs):
         P.append(('count', 'get_warning_count()=%d but %d diagnostics were logged' % (o.count, len(o.recs))))
@@ -267,8 +278,6 @@ def _report(part, kind, desc, text, case):
     lines = B.split_lines(text)
     if kind == 'no-position' and has_continued_annotations(lines):
         key = 'no-position:continued-annotation-line'
-    elif kind == 'quoted-line' and re.match(r'^\s*\S.*\*+/\s*$', lines[-1]) and ('line %d is' % (MUT_LINE + len(lines) - 1)) in desc:
-        key = 'quoted-line:text-before-end-token'
     else:
         key = '%s:%s' % (kind, case.get('id') or stable_hash(text)[:12])
     part.violation(key, desc, dict(case, text=text))
@@ -363,8 +372,9 @@ def _work_edits(chunk):
             continue
         seen.add(mut)
         o = observe(mut, True)
-        P = judge(mut, o)
-        part.add(states=1, evaluations=2, traces_validated_against_impl=1)
+        notes = []
+        P = judge(mut, o, notes=notes)
+        part.add(states=1, evaluations=2, traces_validated_against_impl=1, unspecified=len(notes))
         if o.recs:
             part.add(distinct_nontrivial=1)
         part.outcome('edit/%s' % '|'.join(sorted(set(_norm(r['text']) for r in o.recs))))
@@ -428,9 +438,11 @@ def _work_texts(chunk):
     good_views()
     for did, text in chunk:
         o = observe(text, True)
-        P = judge(text, o)
+        notes = []
+        P = judge(text, o, notes=notes)
         P += judge_warn_error(text, o)
-        part.add(states=1, transitions=1, evaluations=3, traces_validated_against_impl=1, warn_error_runs=1)
+        part.add(states=1, transitions=1, evaluations=3, traces_validated_against_impl=1, warn_error_runs=1,
+                 unspecified=len(notes))
         if o.recs:
             part.add(distinct_nontrivial=1)
         part.outcome('deg/%s' % '|'.join(sorted(set(_norm(r['text']) for r in o.recs))))
@@ -618,12 +630,15 @@ def run(ctx):
                     'insert_chars': len(INSERT_CHARS), 'degenerate_blocks': len(degenerate()),
                     'warn_error_runs': 'all degenerate blocks; all field strings up to length %d in 3 positions x 2 '
                                        'placements; every edit of %d base block(s)' % (n_we, 1 if not thorough else 3)})
+    only = [f for f in os.environ.get('VERIF_FAMILIES', '').split(',') if f]
+    if only:
+        ctx.cap('family filter VERIF_FAMILIES=%s (debugging aid; default runs all families)' % ','.join(only))
     # (i)
-    for r in pmap(_work_fields, rotate(field_chunks(n_double, n_single, n_cont), ctx.seed)):
+    for r in pmap(_work_fields, rotate(field_chunks(n_double, n_single, n_cont) if not only or 'i' in only else [], ctx.seed)):
         ctx.merge(r)
     # (ii)
     chunks = []
-    for bi, (bid, text) in enumerate(bases):
+    for bi, (bid, text) in enumerate(bases if not only or 'ii' in only else []):
         total = sum(1 for _ in edits(text))
         step = 600
         for lo in range(0, total, step):
@@ -631,17 +646,21 @@ def run(ctx):
     for r in pmap(_work_edits, rotate(chunks, ctx.seed)):
         ctx.merge(r)
     # (iii)
-    D = list(enumerate(degenerate()))
-    for r in pmap(_work_texts, rotate([D[i::16] for i in range(16)], ctx.seed)):
+    D = list(enumerate(degenerate())) if not only or 'iii' in only else []
+    for r in pmap(_work_texts, rotate([D[i::16] for i in range(16) if D[i::16]], ctx.seed)):
         ctx.merge(r)
     # warn-error over short field strings
     short = [''.join(t) for n in range(n_we + 1) for t in itertools.product(SIGMA, repeat=n)]
-    for r in pmap(_work_fields_we, rotate([short[i::16] for i in range(16)], ctx.seed)):
+    if only and 'we' not in only:
+        short = []
+    for r in pmap(_work_fields_we, rotate([short[i::16] for i in range(16) if short[i::16]], ctx.seed)):
         ctx.merge(r)
     ctx.assumptions += [
         'line numbers are judged only for blocks whose /** stands alone on its line (statement)',
         'the quoted line is judged unless the source line at the reported number is a deprecated tag-style annotation '
         '(Attributes:, Rename to:, Type:, Transfer:, Value:, Virtual:, *func:) (statement)',
+        'text sharing its line with the end token: the parser quotes that line without the token and surrounding blanks; '
+        'UNSPECIFIED by the lead\'s ruling, MUST only: quoted text is a substring of that source line, caret inside it',
         'lines are separated by \\n, \\r\\n or \\r; other Unicode line separators are outside the alphabet',
         'family (i): nested but balanced parentheses, blank groups, duplicate names and the deprecated "<" token are '
         'UNSPECIFIED for clause (b)',
@@ -650,7 +669,7 @@ def run(ctx):
         'caret_in_field / caret_elsewhere in coverage are informational, not judged (statement only requires the caret '
         'inside the quoted line)',
     ]
-    if len(ctx._outcomes) < 30 or ctx.cov.get('distinct_nontrivial', 0) < 1000:
+    if not only and (len(ctx._outcomes) < 30 or ctx.cov.get('distinct_nontrivial', 0) < 1000):
         raise HarnessBroken('vacuous exploration: %d outcomes, %d non-trivial' % (
             len(ctx._outcomes), ctx.cov.get('distinct_nontrivial', 0)))
 
